@@ -1,3 +1,4 @@
 import Cgm.Lemmas.AuditCmd
 import Cgm.Props.C20
+import Cgm.Props.C20b
 #audit_namespace Cg.C20
